@@ -189,7 +189,19 @@ def _opimpl(trait, method, old, new):
         method: Fn(F, method, key="BigInt::%s" % method, props=["C05"],
                    rewrites=[Rewrite(old, new, rule=R3, why="operator on reference operands -> UFCS desugaring")])})
 
+NOT_IMPL = Impl(F, "std::ops::Not for &BigInt", props=["C05", "C04"], fns={
+    "not": Fn(F, "not", key="BigInt::not", props=["C05", "C04"],
+        rewrites=[Rewrite("for i in 0..x_bytes.len()", "for i in it: 0..x_bytes.len()", rule="R5", why="ghost iterator named"),
+                  Rewrite("x_bytes[i] = !x_bytes[i];", "x_bytes.set(i, !x_bytes[i]);", rule="R14", why="Verus has no IndexMut assignment on Vec: `v[i] = x` is written as vstd's `v.set(i, x)`")],
+        inserts=[
+            Insert("        if self.bigint.sign() != num_bigint::Sign::Minus", "        let ghost enc = x_bytes@;\n        proof { num_bigint::lemma_unsigned_le_bound(enc); num_bigint::lemma_unsigned_le_push_zero(enc); }\n", where="before"),
+            Insert("        for i in it: 0..x_bytes.len()", "        let ghost orig = x_bytes@;\n", where="before"),
+            Insert("        for i in it: 0..x_bytes.len()\n", "            invariant it.iter.end == orig.len(), x_bytes@.len() == orig.len(), forall|j: int| 0 <= j < x_bytes@.len() ==> #[trigger] x_bytes@[j] == (if j < i { !orig[j] } else { orig[j] }),\n", where="after", rule="R12", why="loop invariant (trait impl bodies take loop contracts as inserts)"),
+            Insert("{ x_bytes.set(i, !x_bytes[i]); }\n", "        proof { assert(x_bytes@ =~= num_bigint::flipped(orig)); num_bigint::lemma_signed_le_flipped(orig); num_bigint::lemma_unsigned_le_bound(orig); }\n", where="after"),
+        ])})
+
 OP_IMPLS = [
+    NOT_IMPL,
     _opimpl("Neg", "neg", "(-&self.bigint)", "core::ops::Neg::neg(&self.bigint)"),
     _opimpl("BitAnd", "bitand", "(&self.bigint & &rhs.bigint)", "core::ops::BitAnd::bitand(&self.bigint, &rhs.bigint)"),
     _opimpl("BitOr", "bitor", "(&self.bigint | &rhs.bigint)", "core::ops::BitOr::bitor(&self.bigint, &rhs.bigint)"),
